@@ -94,7 +94,7 @@ def _mk_frames(c):
     elif pat == 'slew':
         starts, over, slew = [1300.7] * M, True, 37.3
     elif pat == 'epoch':
-        starts, over, slew = [1.6e9 + 0.123] * M, True, 10.0
+        starts, over, slew = [1.6e9 + 0.123] * M, True, np.float32(10.0)     # the slew time as a single-precision scalar
     elif pat == 'gaps':
         gaps = [311.25, 47.1, 1300.7]
         starts = [59000.5]
@@ -378,7 +378,7 @@ def case_cadence(c):
     if cad['over']:
         slew = cad['slew']
         for m in range(1, M):
-            want_same = frames[m - 1].t_stop + slew
+            want_same = float(frames[m - 1].t_stop) + float(slew)
             exact = F(t_starts[m - 1]) + tcs[m - 1] * F(dt) + F(slew)
             if t_starts[m] != want_same or abs(F(t_starts[m]) - exact) > 2 * F(ulp(float(exact))):
                 V('Cadence.overwrite_times', 'start_spacing',
